@@ -235,28 +235,32 @@ def paramDflt : Param → Option Expr | .mk _ d => d
     the error cases are: too many positional, unknown name, bound twice, unbound without default -/
 inductive Src where | arg (r : Ref) | dflt (e : Expr)
 
+def hasName (acc : List (String × Src)) (n : String) : Bool := acc.any (fun p => p.1 == n)
+
+def addNamed (names : List String) (acc : List (String × Src)) :
+    List (String × Ref) → Except Err (List (String × Src))
+  | [] => .ok acc
+  | (n, r) :: rest =>
+    if !names.contains n then .error ⟨"arity", "unknown parameter " ++ n⟩
+    else if hasName acc n then .error ⟨"arity", "parameter bound twice " ++ n⟩
+    else addNamed names (acc ++ [(n, .arg r)]) rest
+
+def fillDefaults (acc : List (String × Src)) : List Param → Except Err (List (String × Src))
+  | [] => .ok acc
+  | p :: rest =>
+    if hasName acc (paramName p) then fillDefaults acc rest
+    else match paramDflt p with
+      | some d => fillDefaults (acc ++ [(paramName p, .dflt d)]) rest
+      | none => .error ⟨"arity", "parameter not bound " ++ paramName p⟩
+
 def bindArgs (ps : List Param) (pos : List Ref) (named : List (String × Ref)) :
     Except Err (List (String × Src)) :=
   if pos.length > ps.length then .error ⟨"arity", "too many args"⟩ else
   let names := ps.map paramName
   let posB : List (String × Src) := (names.zip pos).map (fun p => (p.1, Src.arg p.2))
-  let rec addNamed (acc : List (String × Src)) : List (String × Ref) → Except Err (List (String × Src))
-    | [] => .ok acc
-    | (n, r) :: rest =>
-      if !names.contains n then .error ⟨"arity", "unknown parameter " ++ n⟩
-      else if acc.any (fun p => p.1 == n) then .error ⟨"arity", "parameter bound twice " ++ n⟩
-      else addNamed (acc ++ [(n, .arg r)]) rest
-  match addNamed posB named with
+  match addNamed names posB named with
   | .error e => .error e
-  | .ok acc =>
-    let rec fill (acc : List (String × Src)) : List Param → Except Err (List (String × Src))
-      | [] => .ok acc
-      | p :: rest =>
-        if acc.any (fun q => q.1 == paramName p) then fill acc rest
-        else match paramDflt p with
-          | some d => fill (acc ++ [(paramName p, .dflt d)]) rest
-          | none => .error ⟨"arity", "parameter not bound " ++ paramName p⟩
-    fill acc ps
+  | .ok acc => fillDefaults acc ps
 
 def builtinArity : String → Option Nat
   | "length" | "type" | "objectFields" | "objectFieldsAll" | "toString" => some 1
